@@ -69,7 +69,7 @@ def run(ctx):
             ctx.violation("socket:%s" % ("hang" if to else "crash"), "socket scenarios under a signal storm: rc=%s %s" % (rc, out[-300:]), [sp])
         else:
             ctx.events += sum(1 for _ in open(tp))
-            ok, matched = ctx.validate("net/SockTrace.tla", "SockTrace_io.cfg", tp)
+            ok, matched = socklib.validate_sock(ctx, "SockTrace_io.cfg", tp)
             if not ok:
                 ev = [json.loads(x) for x in open(tp)][matched[0]]
                 ctx.violation("socket:%s" % ev.get("op", "?"), "socket call under a signal storm: %s" % json.dumps(ev)[:300], [sp, tp])
